@@ -1,0 +1,31 @@
+//go:build verif
+
+package sio
+
+import (
+	"time"
+
+	eio "github.com/karagenc/socket.io-go/engine.io"
+	eioparser "github.com/karagenc/socket.io-go/engine.io/parser"
+)
+
+// VerifPacketQueue exposes the unexported packetQueue to the verification harness.
+type VerifPacketQueue struct{ pq *packetQueue }
+
+func VerifNewPacketQueue() *VerifPacketQueue { return &VerifPacketQueue{pq: newPacketQueue()} }
+
+func (q *VerifPacketQueue) Poll() (packets []*eioparser.Packet, ok, closed bool) { return q.pq.poll() }
+func (q *VerifPacketQueue) Add(packets ...*eioparser.Packet)                     { q.pq.add(packets...) }
+func (q *VerifPacketQueue) Reset()                                               { q.pq.reset() }
+func (q *VerifPacketQueue) Close()                                               { q.pq.close() }
+func (q *VerifPacketQueue) WaitForDrain(timeout time.Duration) bool {
+	return q.pq.waitForDrain(timeout)
+}
+func (q *VerifPacketQueue) PollAndSend(socket eio.Socket) { q.pq.pollAndSend(socket) }
+
+// VerifBackoff runs the real back-off calculator with numAttempts preset to attempt.
+func VerifBackoff(min, max time.Duration, jitter float32, attempt uint32) time.Duration {
+	b := newBackoff(min, max, jitter)
+	b.numAttempts = attempt
+	return b.duration()
+}
